@@ -143,16 +143,18 @@ Proof. exact present_roundtrip. Qed.
    c05_name_from_wire and c05_norm_from_wire). *)
 Theorem c05_norm_denotes_same :
   forall f v, wf_val f v ->
-    match f with P_name => True | _ => meaning f (norm_val f v) = meaning f v end.
+    match f with P_name | P_names => True | _ => meaning f (norm_val f v) = meaning f v end.
 Proof. exact norm_meaning. Qed.
 
 (* Values as UnpackRR produces them are already in normal form. *)
 Theorem c05_norm_from_wire :
   (forall ls, Forall wfb ls -> norm_val P_name (V_name (show_name ls)) = V_name (show_name ls)) /\
-  (forall ws, Forall wfb ws -> norm_val P_qstrs (V_strs (map esc_wire ws)) = V_strs (map esc_wire ws)).
+  (forall ws, Forall wfb ws -> norm_val P_qstrs (V_strs (map esc_wire ws)) = V_strs (map esc_wire ws)) /\
+  (forall lss, Forall (Forall wfb) lss -> norm_val P_names (V_strs (map show_name lss)) = V_strs (map show_name lss)).
 Proof. exact norm_from_wire. Qed.
 
-(* Every layout of the table (65 types: the 49 regular ones and HINFO, X25,
+(* Every layout of the table (70 types; B05b added HIP, IPSECKEY, AMTRELAY, AAAA;
+   before: 66 types, the 49 regular ones and HINFO, X25,
    ISDN, SIG, NAPTR, CERT, RRSIG, NSEC3, NSEC3PARAM, SMIMEA, UINFO, NID, L64,
    EUI48, EUI64, CAA) is well-formed and belongs to a registered type. *)
 Theorem c05_layouts_wf :
@@ -242,3 +244,53 @@ Theorem c05_nsec3_hash_length_refuted :
   forall (n : N) (w : bytes) (r : list tok), word_ok w = true ->
     read_single P_b32 (TStr w :: r) = Ok (V_sized 20 w, r) /\ (n <> 20 -> V_sized 20 w <> V_sized n w).
 Proof. exact nsec3_hash_length_refuted. Qed.
+
+(* ---- B05b: HIP, IPSECKEY, AMTRELAY, AAAA ---- *)
+
+(* The gateway of IPSECKEY / AMTRELAY in the form its type selects (type 0 and
+   types above 3: "."; type 1: an IPv4 or IPv4-mapped address, printed as a
+   dotted quad; type 2: any other 16-octet address (gw6_ok); type 3: a name printed verbatim that is one
+   word toAbsoluteName returns unchanged) is one word and parseAddrHostUnion
+   reads it as the selected member, the other member empty. *)
+Theorem c05_gateway_roundtrip :
+  forall (k : N) (addr host : bytes), gw_wf k addr host ->
+    word_ok (gateway_text k addr host) = true /\
+    parse_gateway (gateway_text k addr host) k = Ok (gw_addr k addr, gw_host k host).
+Proof. exact gateway_roundtrip. Qed.
+
+(* IPv6 text.  For every 16-octet address, the text netip.Addr.AppendTo gives
+   (longest run of two or more zero groups compressed, leftmost on ties, lower
+   case, no leading zeros) is one word and net.ParseIP (netip.parseIPv6) reads
+   it back as the same 16 octets; it contains a colon. *)
+Theorem c05_ip6_roundtrip :
+  forall a : bytes, length a = 16%nat -> wfb a ->
+    parse_ip (present_ip6 a) = Some a /\ word_ok (present_ip6 a) = true /\
+    existsb (N.eqb 58) (present_ip6 a) = true.
+Proof. exact parse_ip_present_ip6. Qed.
+
+(* AAAA.String / AAAA.parse for every 16-octet address, the IPv4-mapped ones
+   ("::ffff:" and the dotted quad) included. *)
+Theorem c05_aaaa_roundtrip :
+  forall a : bytes, aaaa_ok a ->
+    word_ok (present_aaaa a) = true /\ parse_aaaa (present_aaaa a) = Some a.
+Proof. exact aaaa_roundtrip. Qed.
+
+(* Refuted on the faithful model (known findings): a type-2 gateway holding an
+   IPv4-mapped address is printed as a dotted quad and refused on re-reading
+   (the same text is accepted under type 1); HIP with an empty HIT. *)
+Theorem c05_ipseckey_v4mapped_refuted :
+  present_fields G_ipseckey [V_int 10; V_gw 2 2 (v4mapped [192; 0; 2; 38]) []; V_word [65; 65; 65; 65]]
+    = bytes_of_string "10 2 2 192.0.2.38 AAAA" /\
+  parse_fields G_ipseckey
+    (lex_rdata (present_fields G_ipseckey [V_int 10; V_gw 2 2 (v4mapped [192; 0; 2; 38]) []; V_word [65; 65; 65; 65]] ++ [10]))
+    = Err "gateway".
+Proof. exact ipseckey_v4mapped_refuted. Qed.
+Theorem c05_ipseckey_v4_reread :
+  parse_fields G_ipseckey (lex_rdata (bytes_of_string "10 1 2 192.0.2.38 AAAA" ++ [10]))
+    = Ok [V_int 10; V_gw 1 2 (v4mapped [192; 0; 2; 38]) []; V_word [65; 65; 65; 65]].
+Proof. exact ipseckey_v4_reread. Qed.
+Theorem c05_hip_empty_hit_refuted :
+  parse_fields G_hip
+    (lex_rdata (present_fields G_hip [V_int 2; V_sized 0 []; V_sized 3 [65; 119; 69; 65]; V_strs [[97; 46]]] ++ [10]))
+    = Err "pk".
+Proof. exact hip_empty_hit_refuted. Qed.
